@@ -5,6 +5,8 @@ package main
 // (DESIGN.md §5). Parse stage only, through the real entry points and the seam.
 
 import (
+	"unicode/utf8"
+	"encoding/base64"
 	"fmt"
 	"os"
 	"path/filepath"
@@ -357,6 +359,9 @@ func (c *Ctx) stageEntries(rng *Rng) {
 			if !keep && k > 0 && interesting(t.text[k-1]) && (!big || rng.Intn(4) == 0) {
 				keep = true
 			}
+			if !keep && t.text[k]&0xC0 == 0x80 {
+				keep = true // a cut inside a multi-byte character
+			}
 			if !keep && rng.Intn(12) == 0 {
 				keep = true
 			}
@@ -392,7 +397,11 @@ func (c *Ctx) stageEntries(rng *Rng) {
 		sp := &Spec{ID: fmt.Sprintf("C07/entry/%d", off), Order: OrderPlan{Mode: "canon"}, Budget: 2000000000}
 		var ops []Op
 		for i, e := range all[off:end] {
-			ops = append(ops, Op{Op: "entry", ID: fmt.Sprintf("e%d", off+i), Kind: e.kind, Text: e.text})
+			o := Op{Op: "entry", ID: fmt.Sprintf("e%d", off+i), Kind: e.kind, Text: e.text}
+			if !utf8.ValidString(e.text) {
+				o.Text, o.TextB64 = "", base64.StdEncoding.EncodeToString([]byte(e.text))
+			}
+			ops = append(ops, o)
 		}
 		sp.Tasks = [][]Op{ops}
 		specs = append(specs, sp)
@@ -407,7 +416,7 @@ func (c *Ctx) stageEntries(rng *Rng) {
 		}
 		one := &Spec{ID: sp.ID + "/" + e.ID, Order: OrderPlan{Mode: "canon"}, Budget: 2000000000, Tasks: [][]Op{{e}}}
 		c.Findings = append(c.Findings, &Finding{Class: cl, Scenario: "entry:" + e.Kind, Where: where,
-			Detail: fmt.Sprintf("entry point %s on %q: %s", e.Kind, clip(e.Text, 300), detail), Oracle: "parser entry point returns (error / nil allowed)", Spec: one, Expect: cl + "@" + where})
+			Detail: fmt.Sprintf("entry point %s on %q: %s", e.Kind, clip(e.Text+e.TextB64, 300), detail), Oracle: "parser entry point returns (error / nil allowed)", Spec: one, Expect: cl + "@" + where})
 	}
 	const chunk = 512
 	for off := 0; off < len(specs); off += chunk {
@@ -424,7 +433,7 @@ func (c *Ctx) stageEntries(rng *Rng) {
 			sp := specs[off+i]
 			c.Ev.Evals += len(sp.Tasks[0])
 			for _, o := range sp.Tasks[0] {
-				c.Ev.Distinct("entry|" + o.Kind + "|" + o.Text)
+				c.Ev.Distinct("entry|" + o.Kind + "|" + o.Text + o.TextB64)
 			}
 			if r.Fatal != "" {
 				// find the culprit(s): run each op of the batch alone
